@@ -289,9 +289,6 @@ fn json_typed(ty: &str, value: &J, convert: bool) -> Cell {
     match (ty, value) {
         ("int", J::Num(text)) => {
             if J::is_integer_literal(text) {
-                if text == "-0" {
-                    return Cell::Any;
-                }
                 match text.parse::<i64>() {
                     Ok(i) => Cell::Val(V::Int(i)),
                     Err(_) => Cell::Val(V::Null),
@@ -334,14 +331,13 @@ pub fn model_extract(c: &Compiled, line: &str) -> ModelRow {
             captures.insert(name.as_str(), re.captures(line));
         }
     }
-    let mut json_gray = false;
+    let json_gray = false;
     let json = if c.has_json {
         match parse_json(line) {
             Ok(j) => {
-                if has_overflowing_number(&j) {
-                    // a number beyond f64: whether the document still counts as valid is not fixed
-                    json_gray = true;
-                }
+                // (a number beyond f64 somewhere in the document does not make the document invalid: "numbers beyond i64/f64"
+                // are wrong-typed leaves for the column that addresses them and nothing at all for the other columns)
+                let _ = has_overflowing_number(&j);
                 Some(j)
             }
             Err(_) => None,
@@ -437,10 +433,8 @@ pub fn cell_accepts(cell: &Cell, got: &V) -> bool {
         Cell::Val(v) => same(v, got),
         Cell::OneOf(vs) => vs.iter().any(|v| same(v, got)),
         Cell::RealNear(f) => match got {
-            V::Real(g) => {
-                let ulp = (f.abs() * f64::EPSILON).max(f64::MIN_POSITIVE);
-                (g - f).abs() <= 2.0 * ulp
-            }
+            // the correctly rounded value of the number's text (what reading the same characters from a regex group gives)
+            V::Real(g) => g == f || (g.is_nan() && f.is_nan()),
             _ => false,
         },
     }
